@@ -470,18 +470,16 @@ theorem scenarioBodyBuffered_eq (answlog debug hasPostprocessors : Bool) :
 theorem scenarioBodyBufferedUnknownAtoms_eq : Gen.RespGuard.scenarioBodyBufferedUnknownAtoms = [] := rfl
 
 /-- `ScenarioGun.prepareRequest`: the error of `http.NewRequest` is returned before the request is touched (a URL rendered
-from a response-derived variable may be unparsable: the step fails, `StepCfg.prepFails`) -/
-theorem scenarioPrepareRequest_eq : Gen.RespGuard.scenarioPrepareRequest = [
-    "const op = \"base_gun.prepareRequest\"",
-    "var v0 io.Reader",
-    "if v1.Body != nil { v0 = bytes.NewReader(v1.Body) }",
-    "v2, v3 := http.NewRequest(v1.Method, v1.URL, v0)",
-    "if v3 != nil { return nil, fmt.Errorf(\"…\", op, v3) }",
-    "for v4, v5 := range v1.Headers { v2.Header.Set(v4, v5) }",
-    "if v6.base.Config.SSL { v2.URL.Scheme = \"https\" } else { v2.URL.Scheme = \"http\" }",
-    "if v2.Host == \"\" { v2.Host = getHostWithoutPort(v6.base.Config.Target) }",
-    "v2.URL.Host = v6.base.Config.TargetResolved",
-    "return v2, v3"] := rfl
+from a response-derived variable may be unparsable: the step fails, `StepCfg.prepFails`). Stated as order-free FACTS
+about the current source (round 6; the literal statement list broke on the legitimate repair 789fa67, which changed what is
+done with the headers of a request that exists): what happens to an existing request is free, using it before the error
+check or returning it with an error is not (mutant r4 of round 3 sets `errorCheckedBeforeAnyUse=false`). -/
+theorem scenarioPrepareFacts_eq : Gen.RespGuard.scenarioPrepareFacts = [
+    "newRequestCalls=1",
+    "newRequestAtTopLevel=true",
+    "errorCheckedBeforeAnyUse=true",
+    "requestUntouchedOnError=true",
+    "returnsNilRequestAndAnError=true"] := rfl
 
 /-- the preprocessor block of `shootStep` (model `scenarioStepsV`): the preprocessor's error is the step's error -/
 theorem scenarioPreBlock_eq : Gen.RespGuard.scenarioPreBlock = [
